@@ -33,7 +33,7 @@ SUBSETS = [[1], [2], [1, 2]]
 def bounds(tier):
     k = 4 if tier == "thorough" else 3
     return {
-        "H17": "non-cyclic eventgroup with 2 events: K<=%d calls from {subscribe(endpoint in 3), unsubscribe(endpoint), value update, notify_once(subset in 3), subscription with 0 / 2 endpoints, subscription for an unknown eventgroup}; gaps symbolic 0..50 ms; counters symbolic" % k,
+        "H17": "non-cyclic eventgroup with 2 events: K<=%d calls from {subscribe(endpoint in 3), unsubscribe(endpoint), unsubscribe of an endpoint that is not subscribed, value update, notify_once(subset in 3), subscription with 0 / 2 endpoints, subscription for an unknown eventgroup}; gaps symbolic 0..50 ms; counters symbolic" % k,
         "H17c": "cyclic eventgroup (1 s): subscribe at a symbolic instant followed by none / unsubscribe / second subscriber / value update / unsubscribe+resubscribe at symbolic instants (0..2500 ms apart), observed 2500 ms beyond",
         "H17s": "through service discovery: Subscribe datagram (1 endpoint / 2 endpoints / undeclared eventgroup, TTL symbolic) to an announced SimpleService, then StopSubscribe",
     }
@@ -60,7 +60,7 @@ def _valid(seq):
 
 def cases(tier, seed):
     K = 4 if tier == "thorough" else 3
-    ops = [["sub", e] for e in EPS] + [["unsub", e] for e in EPS] + [["update", 1], ["update", 2]] + [["notify", i] for i in range(3)] + [["bad2"], ["bad0"], ["unknown"]]
+    ops = [["sub", e] for e in EPS] + [["unsub", e] for e in EPS] + [["update", 1], ["update", 2]] + [["notify", i] for i in range(3)] + [["bad2"], ["bad0"], ["unknown"], ["unsub_x"]]
     out = []
     for k in range(1, K + 1):
         for combo in itertools.product(ops, repeat=k):
@@ -68,7 +68,7 @@ def cases(tier, seed):
                 continue
             if k == K and not any(o[0] in ("notify", "sub") for o in combo):
                 continue
-            if tier == "quick" and k == K and sum(1 for o in combo if o[0] in ("bad2", "bad0", "unknown", "update")) > 1:
+            if tier == "quick" and k == K and sum(1 for o in combo if o[0] in ("bad2", "bad0", "unknown", "update", "unsub_x")) > 1:
                 continue
             out.append({"h": "H17", "ops": [list(o) for o in combo], "_w": k})
     for scen in ("none", "unsub", "sub2", "update", "unsub-resub"):
@@ -151,7 +151,7 @@ def h17(E, M, case):
     nupd = 0
 
     def conflicting(a, b):
-        change = ("sub", "unsub", "update")
+        change = ("sub", "unsub", "update", "unsub_x")
         return (a in change and b == "notify") or (a == "notify" and b in change) or (a == "update" and b == "sub") or (a == "sub" and b == "update")
 
     for i, op in enumerate(case["ops"]):
@@ -168,6 +168,12 @@ def h17(E, M, case):
             ep = _ep(M, op[1])
             sc.at(t, lambda ep=ep: svc.client_unsubscribed(_subscription(M, [ep]), P), "op%d" % i, joinable=False)
             subs.remove(op[1])
+        elif kind == "unsub_x":
+            # StopSubscribe / expiry for an endpoint that is not subscribed (never was, or
+            # already gone): must not disturb the others
+            other = ([n for n in sorted(EPS) if n not in subs] + [None])[0]
+            ep = _ep(M, other) if other else M.header.IPv4EndpointOption(ipaddress.IPv4Address("192.0.2.99"), M.header.L4Protocols.UDP, 4999)
+            sc.at(t, lambda ep=ep: svc.client_unsubscribed(_subscription(M, [ep]), P), "op%d" % i, joinable=False)
         elif kind == "update":
             nupd += 1
             newv = bytes([0xA0 + nupd]) * (op[1] + nupd % 2)
